@@ -289,6 +289,29 @@ def _first_isinstance_tuple(fn, what):
     raise ExtractError('%s: isinstance(value, (...)) not found' % what)
 
 
+def _fk_type_follows_referenced(tree):
+    """which class's sqlmeta.idType picks the SQL type of a ForeignKey column: SOForeignKey._idType must look
+    the REFERENCED class up (findClass(self.foreignKey, ...).sqlmeta.idType); if the override is gone the
+    inherited SOKeyCol._idType uses the column's own class"""
+    base = find_func(find_class(tree, 'SOKeyCol'), '_idType')
+    if ast.unparse(strip_doc(base.body)[-1]) != 'return self.soClass.sqlmeta.idType':
+        raise ExtractError('SOKeyCol._idType: unexpected body %s' % ast.unparse(base))
+    st = find_func(find_class(tree, 'SOKeyCol'), '_sqlType')
+    if ast.unparse(strip_doc(st.body)[-1]) != 'return self.key_type[self._idType()]':
+        raise ExtractError('SOKeyCol._sqlType: unexpected body')
+    fk = find_class(tree, 'SOForeignKey')
+    for node in fk.body:
+        if isinstance(node, ast.FunctionDef) and node.name in ('_sqlType', '_sqliteType'):
+            raise ExtractError('SOForeignKey now defines %s' % node.name)
+    over = [n for n in fk.body if isinstance(n, ast.FunctionDef) and n.name == '_idType']
+    if not over:
+        return False
+    body = [ast.unparse(x) for x in strip_doc(over[0].body)]
+    if body == ['other = findClass(self.foreignKey, self.soClass.sqlmeta.registry)', 'return other.sqlmeta.idType']:
+        return True
+    raise ExtractError('SOForeignKey._idType: unexpected body %r' % body)
+
+
 def _base64(repo):
     tree = parse(repo, 'sqlobject/sqlite/sqliteconnection.py')
     enc = dec = None
@@ -345,6 +368,10 @@ def extract(repo):
              % ', '.join(_first_isinstance_tuple(find_func(dtv, 'from_python'), 'DateTimeValidator.from_python')))
     L.append('def dtToPythonPass : List PassKind := [%s]'
              % ', '.join(_first_isinstance_tuple(find_func(dtv, 'to_python'), 'DateTimeValidator.to_python')))
+    L.append('')
+    L.append('/-- col.py: `SOForeignKey._idType` takes the idType of the REFERENCED class (true) or, inherited from')
+    L.append('    `SOKeyCol`, of the column\'s own class (false); `key_type[...]` of it is the column type -/')
+    L.append('def fkTypeFollowsReferenced : Bool := %s' % ('true' if _fk_type_follows_referenced(col) else 'false'))
     L.append('')
     _base64(repo)
     L.append('/-- sqliteconnection.py: `sqlite.encode = base64.b64encode`, `sqlite.decode = base64.b64decode` (checked) -/')
